@@ -271,6 +271,31 @@ def main():
                                 grpj.append(prog(pid(), src, astp, "m", "", "", tag))
     words = [bytes(t) for n in range(0, (7 if quick else 8) + 1) for t in itertools.product(b"ab", repeat=n)]
     sp_grp = ["B list " + " ".join((pre + w + post).hex() for w in words for (pre, post) in ((b"x", b"c"), (b"x", b""), (b"", b"c"), (b"ax", b"cb")))]
+    # class-range family: classes whose ranges end at the first / last letter (and their neighbours @ [ ` {), negated, with and without case folding
+    # (/i, nocase, matches /i), against EVERY byte value in the class position: k<class>m on the 256 buffers k?m (+ framed)
+    clsj = []
+    def rng(a, b): return set(range(ord(a), ord(b) + 1))
+    CLS = [("[a-z]", rng("a", "z"), False), ("[y-z]", rng("y", "z"), False), ("[A-Z]", rng("A", "Z"), False), ("[A-B]", rng("A", "B"), False), ("[^z]", {ord("z")}, True), ("[^A]", {ord("A")}, True),
+           ("[^a-y]", rng("a", "y"), True), ("[x-z0-1]", rng("x", "z") | rng("0", "1"), False), ("[Z-a]", rng("Z", "a"), False), ("[@-[]", rng("@", "["), False), ("[`-{]", rng("`", "{"), False),
+           ("[\\x7f-\\xff]", set(range(0x7f, 0x100)), False), ("[\\x00-\\x20]", set(range(0, 0x21)), False)]
+    def fold(st):
+        return st | {c ^ 0x20 for c in st if chr(c).isalpha() and c < 128}
+    for (csrc, cset, neg) in CLS:
+        for icase in (False, True):
+            st = fold(cset) if icase else cset
+            ast_c = cls_hex(st, neg)
+            K = "B 6b ff 0" if not icase else cls_hex({ord("k"), ord("K")})
+            M = "B 6d ff 0" if not icase else cls_hex({ord("m"), ord("M")})
+            astp = ". %s . %s %s" % (K, ast_c, M)
+            src = "k" + csrc + "m"
+            if icase:
+                clsj.append(prog(pid(), src, astp, "s", "", "i", "class-range:/i"))
+                clsj.append(prog(pid(), src, astp, "s", "nocase", "", "class-range:nocase"))
+                clsj.append(prog(pid(), src, astp, "m", "", "i", "class-range:/i"))
+            else:
+                clsj.append(prog(pid(), src, astp, "s", "", "", "class-range"))
+                clsj.append(prog(pid(), src, astp, "m", "", "", "class-range"))
+    sp_cls = ["B list " + " ".join((pre + bytes([c]) + post).hex() for c in range(256) for (pre, post) in ((b"k", b"m"), (b"K", b"M"), (b"-k", b"m-")))]
     lb = 5 if quick else 6
     sp_main = ["B all %s %d" % (ALPHA.hex(), lb)]
     sp4 = ["B all %s %d" % (ALPHA.hex(), 4 if quick else 5)]
@@ -280,6 +305,7 @@ def main():
     chunks += [("plain", sp_fam, c) for c in yv.chunked(fam, 100)] + [("plain", sp_wide, c) for c in yv.chunked(widej, 100)]
     chunks += [("plain", [], c) for c in yv.chunked(winj, 100)]
     chunks += [("plain", sp_grp, c) for c in yv.chunked(grpj, 60)]
+    chunks += [("plain", sp_cls, c) for c in yv.chunked(clsj, 20)]
     if quick:
         chunks += [("asan", ["B all %s 4" % ALPHA.hex()], c) for c in yv.chunked(jobs[::5], 200)]
     for v in ("plain", "asan"): yv.space_exe(v)
@@ -308,7 +334,7 @@ def main():
     ck.cov["programs_hitting_fiber_limit"] = limited
     ck.cov["rejected_by_compiler"] = rejected
     ck.cov["rule"] = ("programs = all regex ASTs with <=3 nodes (x greedy/lazy x /i /s x nocase, fullword, wide, ascii wide, and as `matches` operand), all ASTs "
-                      "with 4 nodes (greedy%s), the families P(X){n,m}Q, P X{n,m} Q Y{k,l} R and P(X q1 Y)q2 Q (quantified group starting / ending with a quantified element), the window family (runs of 5..7 (8) one-character nodes {literal, dot, class}, plain / grouped / as alternation branch / counted, each with its own instance and near-miss buffers); inputs = every buffer over {a,b,A,\\n,space,1} with length <= %d (<=%d for 4 nodes), "
+                      "with 4 nodes (greedy%s), the families P(X){n,m}Q, P X{n,m} Q Y{k,l} R and P(X q1 Y)q2 Q (quantified group starting / ending with a quantified element), the class-range family (13 classes at letter / byte-range borders x case folding x all 256 byte values), the window family (runs of 5..7 (8) one-character nodes {literal, dot, class}, plain / grouped / as alternation branch / counted, each with its own instance and near-miss buffers); inputs = every buffer over {a,b,A,\\n,space,1} with length <= %d (<=%d for 4 nodes), "
                       "{a,b}^<=10 for the family, 2-byte units for wide; non-trivial = (program, buffer) pairs with an expected match") % (
                           "" if quick else " and lazy; 5 nodes over a reduced leaf set", lb, 4 if quick else 5)
     ck.assumptions += ["a lazy expression that can also match the empty string may report length 0 at an offset that has a non-empty match",
